@@ -1138,6 +1138,16 @@ class Interp:
         if isinstance(base, _NT):
             if node.attr in base.cls.fields:
                 return base.values[base.cls.fields.index(node.attr)]
+            if node.attr in ("_asdict", "_replace"):
+                return _BoundMethod(base, node.attr)
+            if node.attr == "_fields":
+                return tuple(base.cls.fields)
+            raise Unsupported("attribute " + src)
+        if isinstance(base, _NTClass):
+            if node.attr == "_make":
+                return _BoundMethod(base, "_make")
+            if node.attr == "_fields":
+                return tuple(base.fields)
             raise Unsupported("attribute " + src)
         if isinstance(base, (str, list, dict, tuple)):
             return _BoundMethod(base, node.attr)
@@ -1391,7 +1401,14 @@ class Interp:
         if name == "isinstance":
             return self.isinstance(args[0], node.args[1])
         if name in ("list", "tuple"):
-            return list(args[0]) if name == "list" else tuple(args[0])
+            src = args[0].values if isinstance(args[0], _NT) else args[0] if args else ()
+            if isinstance(src, Arr):
+                if src.rank == 0:
+                    raise Unsupported("iteration over a scalar")
+                src = [self.index_arr(src, [i], node) for i in range(src.shape[0])]
+            if not isinstance(src, (list, tuple, range, str, dict)):
+                raise Unsupported(f"{name} of {type(src).__name__}")
+            return list(src) if name == "list" else tuple(src)
         if name == "sum":
             tot = 0
             for x in args[0]:
@@ -1523,6 +1540,22 @@ class Interp:
 
     def bound(self, f, args, kwargs, node):
         o, a = f.obj, f.attr
+        if isinstance(o, _NTClass) and a == "_make" and len(args) == 1:
+            vals = args[0].values if isinstance(args[0], _NT) else args[0]
+            if isinstance(vals, Arr):
+                vals = [self.index_arr(vals, [i], node) for i in range(vals.shape[0])]
+            if not isinstance(vals, (list, tuple)) or len(vals) != len(o.fields):
+                raise Unsupported("namedtuple _make arity")
+            return _NT(o, list(vals))
+        if isinstance(o, _NT) and a == "_asdict":
+            return dict(zip(o.cls.fields, o.values))
+        if isinstance(o, _NT) and a == "_replace":
+            vals = list(o.values)
+            for k, v in kwargs.items():
+                if k not in o.cls.fields:
+                    raise Unsupported("namedtuple field " + k)
+                vals[o.cls.fields.index(k)] = v
+            return _NT(o.cls, vals)
         if isinstance(o, str):
             if a == "split":
                 return o.split(*args)
